@@ -241,7 +241,7 @@ def refused_seek_histories(tier):
                     for (wh, d, sym) in bads:
                         ops += [{"op": "write", "runs": [[f.next(), wn]]}, {"op": "position"},
                                 {"op": "seek", "whence": wh, "d": d, "sym": sym}, {"op": "position"}, {"op": "len"}]
-                    for sym in ("u64max", "i64max"):
+                    for sym in ("u64max", "i64max") + (("v3_4g", "v3_5g", "v3_16t") if ver == 3 else ()):
                         ops += [{"op": "write", "runs": [[f.next(), wn]]}, {"op": "set_len", "n": 0, "sym": sym},
                                 {"op": "len"}, {"op": "position"}, {"op": "seek", "whence": "end", "d": 0, "sym": ""}, {"op": "position"}]
                     ops += [{"op": "flush"}, {"op": "fresh_read"}]
